@@ -3,6 +3,7 @@
 from __future__ import annotations
 
 import ast
+import re
 from typing import Iterable, Iterator
 
 from .cfg import CFG, Node, build_cfg, call_name, calls_in, node_calls
@@ -396,7 +397,28 @@ class Dispatch:
             defs = self._defs_under(fi, key, at, e)
             if defs:
                 return [x for v, d in defs for x in self.values_under(fi, key, d, v, depth - 1)]
+        if isinstance(e, ast.Subscript) and isinstance(e.slice, ast.Constant) and isinstance(e.slice.value, int):
+            # (a, b)[0] / the synthetic definition of a name bound by tuple unpacking
+            out: list[ast.expr] = []
+            for v in self.values_under(fi, key, at, e.value, depth - 1):
+                if isinstance(v, (ast.Tuple, ast.List)) and -len(v.elts) <= e.slice.value < len(v.elts) and not any(isinstance(x, ast.Starred) for x in v.elts):
+                    out += self.values_under(fi, key, at, v.elts[e.slice.value], depth - 1)
+                else:
+                    return [e]
+            return out or [e]
         return [e]
+
+    def dicts_under(self, fi: FuncInfo, key: str | None) -> list[dict[str, set[str]]]:
+        """Constant-keyed dict displays in the statements reachable under ``key``: entry key -> texts of the values the entry can have
+        under the key (locals and conditional expressions resolved with ``values_under``)."""
+        out: list[dict[str, set[str]]] = []
+        for n in self.under(key):
+            if n.ast is None or n.kind == "test":
+                continue
+            for sub in ast.walk(n.ast):
+                if isinstance(sub, ast.Dict) and any(isinstance(k, ast.Constant) for k in sub.keys):
+                    out.append({k.value: {ast.unparse(x) for x in self.values_under(fi, key, n, v)} for k, v in zip(sub.keys, sub.values) if isinstance(k, ast.Constant)})
+        return out
 
     def exclusive(self, key: str | None) -> list[Node]:
         """Nodes reachable under ``key`` and under no other key (for None: the genuine default branch)."""
@@ -521,22 +543,42 @@ def return_values(fn: ast.AST) -> list[ast.expr]:
 
 def names_from_calls(fn: ast.AST, callee_names: Iterable[str], index: int | None = None) -> set[str]:
     """Locals assigned from a call to one of ``callee_names`` (last attribute / bare name); ``index`` selects the
-    position inside a tuple-unpacking target (None = plain assignment or any position)."""
+    position inside a tuple-unpacking target - or ``parts = f(); x = parts[index]`` - (None = plain assignment or any position).
+    Plain aliases of such locals are included."""
     want = set(callee_names)
     out: set[str] = set()
-    for n in [fn, *walk_no_nested(fn)]:
-        if isinstance(n, (ast.Assign, ast.AnnAssign)) and isinstance(n.value, ast.Call):
+    whole: set[str] = set()
+    assigns = [n for n in [fn, *walk_no_nested(fn)] if isinstance(n, (ast.Assign, ast.AnnAssign)) and n.value is not None]
+    for n in assigns:
+        if isinstance(n.value, ast.Call):
             f = n.value.func
             nm = f.attr if isinstance(f, ast.Attribute) else (f.id if isinstance(f, ast.Name) else "")
             if nm not in want:
                 continue
             targets = n.targets if isinstance(n, ast.Assign) else [n.target]
             for t in targets:
-                if isinstance(t, ast.Name) and index is None:
-                    out.add(t.id)
+                if isinstance(t, ast.Name):
+                    whole.add(t.id)
+                    if index is None:
+                        out.add(t.id)
                 elif isinstance(t, (ast.Tuple, ast.List)):
                     elts = t.elts if index is None else t.elts[index:index + 1] if -len(t.elts) <= index < len(t.elts) else []
                     out |= {e.id for e in elts if isinstance(e, ast.Name)}
+    changed = True
+    while changed:
+        changed = False
+        for n in assigns:
+            targets = n.targets if isinstance(n, ast.Assign) else [n.target]
+            names = {t.id for t in targets if isinstance(t, ast.Name)}
+            if not names or names <= out:
+                continue
+            v = n.value
+            hit = (isinstance(v, ast.Name) and v.id in out) or (
+                isinstance(v, ast.Subscript) and isinstance(v.value, ast.Name) and v.value.id in whole and isinstance(v.slice, ast.Constant)
+                and (index is None or v.slice.value == index))
+            if hit:
+                out |= names
+                changed = True
     return out
 
 
@@ -709,6 +751,37 @@ def forms(fi: FuncInfo, node: Node, e: ast.expr | None) -> set[str]:
     return out
 
 
+_SWAP = {ast.Eq: ast.Eq, ast.NotEq: ast.NotEq, ast.Is: ast.Is, ast.IsNot: ast.IsNot, ast.Lt: ast.Gt, ast.Gt: ast.Lt, ast.LtE: ast.GtE, ast.GtE: ast.LtE}
+_NEG = {ast.Eq: ast.NotEq, ast.NotEq: ast.Eq, ast.Is: ast.IsNot, ast.IsNot: ast.Is, ast.Lt: ast.GtE, ast.GtE: ast.Lt, ast.Gt: ast.LtE, ast.LtE: ast.Gt, ast.In: ast.NotIn, ast.NotIn: ast.In}
+
+
+def comparison_variants(e: ast.expr) -> list[tuple[ast.expr, bool]]:
+    """Every spelling of an atomic test: (expression, same polarity).  ``a != b`` is also ``b != a`` and the negation of ``a == b`` /
+    ``b == a``; ``a < b`` is ``b > a`` and the negation of ``a >= b`` / ``b <= a``; ``x not in m`` is the negation of ``x in m``."""
+    out: list[tuple[ast.expr, bool]] = [(e, True)]
+    if isinstance(e, ast.Compare) and len(e.ops) == 1:
+        op, a, b = type(e.ops[0]), e.left, e.comparators[0]
+        mk = lambda o, l, r: ast.copy_location(ast.Compare(left=l, ops=[o()], comparators=[r]), e)  # noqa: E731
+        if op in _SWAP:
+            out.append((mk(_SWAP[op], b, a), True))
+        if op in _NEG:
+            out.append((mk(_NEG[op], a, b), False))
+            if _NEG[op] in _SWAP:
+                out.append((mk(_SWAP[_NEG[op]], b, a), False))
+    return out
+
+
+def polar_forms(fi: FuncInfo, node: Node, e: ast.expr | None, anon: bool = True) -> list[tuple[str, bool]]:
+    """(text, same polarity) for every expansion depth and every spelling of the test (see ``forms`` and ``comparison_variants``)."""
+    if e is None:
+        return []
+    seen: dict[tuple[str, bool], None] = {}
+    for x in _expansions(fi, node, e):
+        for v, same in comparison_variants(x):
+            seen[(anon_text(v, fi.node) if anon else ast.unparse(v), same)] = None
+    return list(seen)
+
+
 def control_deps(fi: FuncInfo, target: ast.AST | Node) -> list[tuple[str, bool, Node]]:
     """(anonymised test text, polarity, test node) for every atomic test the statement / node is control dependent on
     (exact: removing that out-edge of the test makes the node unreachable).  Each test is listed once per expansion form."""
@@ -722,8 +795,8 @@ def control_deps(fi: FuncInfo, target: ast.AST | Node) -> list[tuple[str, bool, 
             continue
         for pol in (True, False):
             if g.only_if(n.id, t.id, pol):
-                for txt in sorted(forms(fi, t, t.ast)):
-                    out.append((txt, pol, t))
+                for txt, same in sorted(polar_forms(fi, t, t.ast)):
+                    out.append((txt, pol if same else not pol, t))
     return out
 
 
@@ -735,7 +808,7 @@ def tests_like(fi: FuncInfo, *patterns: str) -> list[Node]:
     """Atomic tests one of whose expansion forms equals one of the (``A``-normalised) patterns."""
     g = build_cfg(fi.node)
     want = {A(p) for p in patterns}
-    return [t for t in g.nodes if t.kind == "test" and t.ast is not None and forms(fi, t, t.ast) & want]
+    return [t for t in g.nodes if t.kind == "test" and t.ast is not None and {f for f, same in polar_forms(fi, t, t.ast) if same} & want]
 
 
 def alternatives(fn: ast.AST, e: ast.expr | None) -> list[ast.expr]:
@@ -819,11 +892,23 @@ def flows(fi: FuncInfo, at: Node, e: ast.expr | None, depth: int = 6) -> list[tu
         return []
     g = build_cfg(fi.node)
     if isinstance(e, ast.IfExp):
-        return flows(fi, at, e.body, depth) + flows(fi, at, e.orelse, depth)
+        a, b = flows(fi, at, e.body, depth), flows(fi, at, e.orelse, depth)
+        for leaf, _ in a:
+            _tag_value_cond(leaf, e.test, True)
+        for leaf, _ in b:
+            _tag_value_cond(leaf, e.test, False)
+        return a + b
     if isinstance(e, ast.BoolOp) and isinstance(e.op, ast.Or):
         out: list[tuple[ast.expr, list[Node]]] = []
-        for v in e.values:
-            out += flows(fi, at, v, depth)
+        for i, v in enumerate(e.values):
+            part = flows(fi, at, v, depth)
+            for leaf, _ in part:
+                # `a or b`: a is the value only when it is truthy, b only when a was not
+                if i < len(e.values) - 1:
+                    _tag_value_cond(leaf, v, True)
+                for prev in e.values[:i]:
+                    _tag_value_cond(leaf, prev, False)
+            out += part
         return out
     if isinstance(e, ast.Subscript) and isinstance(e.slice, ast.Slice) and e.slice.step is None and depth > 0 and all(
             b is None or (isinstance(b, ast.Constant) and isinstance(b.value, int)) for b in (e.slice.lower, e.slice.upper)):
@@ -867,6 +952,24 @@ def flows(fi: FuncInfo, at: Node, e: ast.expr | None, depth: int = 6) -> list[tu
             if out:
                 return out
     return [(e, [])]
+
+
+def _tag_value_cond(leaf: ast.expr, cond: ast.expr, polarity: bool) -> None:
+    lst = leaf.__dict__.setdefault("_xsa_value_conds", [])
+    if not any(c is cond and p == polarity for c, p in lst):
+        lst.append((cond, polarity))
+
+
+def leaf_conditions(fi: FuncInfo, at: Node, leaf: ast.expr, chain: list[Node]) -> set[tuple[str, bool]]:
+    """Conditions under which ``leaf`` is the value that flows to ``at``: the control dependences of the use and definition sites
+    (``flow_conditions``) plus the operand conditions of ``a or b`` / ``x if c else y`` expressions the leaf was selected by."""
+    out = flow_conditions(fi, at, chain)
+    for cond, pol in getattr(leaf, "_xsa_value_conds", []):
+        c = cond
+        while isinstance(c, ast.UnaryOp) and isinstance(c.op, ast.Not):
+            c, pol = c.operand, not pol
+        out.add((anon_text(c, fi.node), pol))
+    return out
 
 
 def flow_conditions(fi: FuncInfo, at: Node, chain: list[Node]) -> set[tuple[str, bool]]:
@@ -961,8 +1064,8 @@ def entry_conditions(fi: FuncInfo, target: ast.AST | Node) -> list[tuple[str, bo
         for p, lab in g.pred[cur]:
             pn = g.nodes[p]
             if pn.kind == "test" and lab in ("true", "false"):
-                for txt in sorted(forms(fi, pn, pn.ast)):
-                    out.append((txt, lab == "true", pn))
+                for txt, same in sorted(polar_forms(fi, pn, pn.ast)):
+                    out.append((txt, (lab == "true") if same else (lab != "true"), pn))
             elif pn.kind not in ("test",) and lab != "exc":
                 stack.append(p)
     return out
@@ -1101,7 +1204,14 @@ def path_conditions(fi: FuncInfo, target: ast.AST | Node, start: Node | None = N
                     if isinstance(x, ast.NamedExpr) and isinstance(x.target, ast.Name):
                         env[x.target.id] = subst(x.value)
                 if lab in ("true", "false"):
-                    conds.append(({anon_text(st, fi.node), anon_text(subst(st), fi.node)}, lab == "true", node))
+                    same_t: set[str] = set()
+                    compl_t: set[str] = set()
+                    for x in (st, subst(st)):
+                        for v, same in comparison_variants(x):
+                            (same_t if same else compl_t).add(anon_text(v, fi.node))
+                    conds.append((same_t, lab == "true", node))
+                    if compl_t:
+                        conds.append((compl_t, lab != "true", node))
             elif node.kind == "stmt" and isinstance(st, (ast.Assign, ast.AnnAssign)) and st.value is not None:
                 tgts = st.targets if isinstance(st, ast.Assign) else [st.target]
                 for t in tgts:
@@ -1163,3 +1273,491 @@ def subject(fn: ast.AST, text: str):
     """Predicate for Dispatch: the expression is ``text`` itself or a local that is a plain alias of it (``use = self.use``)."""
     aliases = {k for k, v in single_defs(fn).items() if ast.unparse(v) == text}
     return lambda e: ast.unparse(e) == text or (isinstance(e, ast.Name) and e.id in aliases)
+
+
+def reach_table(fi: FuncInfo, target: ast.AST | Node, atoms: list[dict[str, bool]], raw: bool = False) -> dict[tuple[bool, ...], bool] | None:
+    """Truth table of "``target`` can execute" over named atomic facts.
+
+    ``atoms[i]`` maps test texts (spaces removed, temporaries expanded: any of ``forms`` - or of ``raw_forms`` with ``raw=True``, where
+    locals keep their names) to the value of fact i that makes the test true, e.g. ``{"self.xsi_nil": True}`` or
+    ``{"value is None": False, "value is not None": True}``.  For every assignment of the facts the tests that state a fact are
+    decided and all other tests stay open; the entry says whether the node is still reachable.  Independent of if/else orientation,
+    De Morgan form, guard clause vs nesting, named conditions and bool() wrappers.
+
+    A fact no test states is simply not consulted (the table is constant in it).  None - "form not recognised, no instance" - when the
+    node is not found, or when a test mentions the subject of a fact (its shortest text) in a form the atom does not list."""
+    import itertools
+
+    g = build_cfg(fi.node)
+    n = target if isinstance(target, Node) else node_containing(g, target)
+    if n is None:
+        return None
+    sp = lambda x: x.replace(" ", "")
+    norm = [{sp(k): v for k, v in a.items()} for a in atoms]
+    mention = [min((k for k in a if not k.startswith("re:")), key=len, default="\0") for a in norm]
+    cls: dict[int, tuple[int, bool]] = {}
+    for t in g.nodes:
+        if t.kind != "test" or t.ast is None:
+            continue
+        fs_full = raw_forms(fi, t, t.ast) if raw else {anon_spaced(fi, x) for x in _expansions(fi, t, t.ast)}
+        fs = {sp(f) for f in fs_full}
+        pf = [(sp(f), same) for f, same in polar_forms(fi, t, t.ast, anon=not raw)]
+        for i, a in enumerate(norm):
+            hit = [a[f] if same else not a[f] for f, same in pf if f in a] + [v if same else not v for k, v in a.items() if k.startswith("re:") for f, same in pf if re.fullmatch(k[3:], f)]
+            if hit:
+                cls[t.id] = (i, hit[0])
+                break
+        else:
+            if any(_mentions(f, m) for m in mention for f in fs_full) and _can_divert(g, t.id, n.id):
+                return None
+    table = {}
+    for vals in itertools.product((True, False), repeat=len(atoms)):
+        def decide(t: Node, vals=vals):
+            c = cls.get(t.id)
+            return None if c is None else (vals[c[0]] == c[1])
+        table[vals] = n.id in reach_env(g, decide)
+    return table
+
+
+def _can_divert(g: CFG, test: int, target: int) -> bool:
+    """The test lies before ``target`` and one of its outcomes leads away from it for good."""
+    outs = [m for m, lab in g.succ[test] if lab in ("true", "false")]
+    reach = [target == m or target in g.reachable([m]) for m in outs]
+    return any(reach) and not all(reach)
+
+
+def _expansions(fi: FuncInfo, node: Node, e: ast.expr) -> list[ast.expr]:
+    return [e] + [expand_at(fi, node, e, d) for d in (1, 2, 3, 4)]
+
+
+def anon_spaced(fi: FuncInfo, e: ast.expr) -> str:
+    """Anonymised text that is still parseable (locals read ``_``)."""
+    import copy
+    from .model import _Anon, local_names
+
+    return ast.unparse(_Anon(local_names(fi.node)).visit(copy.deepcopy(e)))
+
+
+def _mentions(text: str, subject: str) -> bool:
+    """The test ``text`` may state the same fact as an atom about ``subject`` (given without spaces) in a spelling the atom does not list:
+    the subject compared with a constant (``x is True``, ``x == ""``, ``len(x) > 0``) or wrapped in len() / bool().  Tests of another
+    kind - isinstance(x, T), x in m, x.startswith(..) - are different facts and stay open."""
+    try:
+        e = ast.parse(text, mode="eval").body
+    except SyntaxError:
+        return False
+    same = lambda x: ast.unparse(x).replace(" ", "") == subject  # noqa: E731
+
+    def wrapped(x: ast.expr) -> bool:
+        return same(x) or (isinstance(x, ast.Call) and isinstance(x.func, ast.Name) and x.func.id in ("len", "bool") and len(x.args) == 1 and same(x.args[0]))
+
+    while isinstance(e, ast.UnaryOp) and isinstance(e.op, ast.Not):
+        e = e.operand
+    if wrapped(e):
+        return True
+    if isinstance(e, ast.Compare) and len(e.ops) == 1 and not isinstance(e.ops[0], (ast.In, ast.NotIn)):
+        a, b = e.left, e.comparators[0]
+        return (wrapped(a) and isinstance(b, ast.Constant)) or (wrapped(b) and isinstance(a, ast.Constant))
+    return False
+
+
+# ------------------------------------------------------------------ path-sensitive reachability (None / truthiness of flag-like locals)
+
+_ABS_NONE, _ABS_T, _ABS_F, _ABS_NN = "N", "T", "F", "NN"
+
+
+def _absval(e: ast.expr | None, env: dict[str, str]) -> str | None:
+    if e is None:
+        return None
+    if isinstance(e, ast.Constant):
+        if e.value is None:
+            return _ABS_NONE
+        return _ABS_T if bool(e.value) else _ABS_F
+    if isinstance(e, ast.Name):
+        return env.get(e.id)
+    if isinstance(e, (ast.List, ast.Tuple, ast.Set)):
+        if any(isinstance(x, ast.Starred) for x in e.elts):
+            return _ABS_NN
+        return _ABS_T if e.elts else _ABS_F
+    if isinstance(e, ast.Dict):
+        if any(k is None for k in e.keys):
+            return _ABS_NN
+        return _ABS_T if e.keys else _ABS_F
+    if isinstance(e, (ast.JoinedStr, ast.Compare, ast.ListComp, ast.SetComp, ast.DictComp, ast.GeneratorExp)) or (isinstance(e, ast.UnaryOp) and isinstance(e.op, ast.Not)):
+        return _ABS_NN
+    if isinstance(e, ast.Lambda):
+        return _ABS_T
+    return None
+
+
+def _tracked_names(g: CFG) -> set[str]:
+    defs = _def_nodes(g)
+    tracked: set[str] = set()
+    changed = True
+    while changed:
+        changed = False
+        for name, sites in defs.items():
+            if name in tracked:
+                continue
+            for v in sites.values():
+                if v is None:
+                    continue
+                if _absval(v, {}) is not None or (isinstance(v, ast.Name) and v.id in tracked):
+                    tracked.add(name)
+                    changed = True
+                    break
+    return tracked
+
+
+def _test_fact(e: ast.AST) -> tuple[str, str] | None:
+    """(name, kind) for tests whose outcome depends on the None-ness / truthiness of a local: kind in truthy | is_none | is_not_none."""
+    if isinstance(e, ast.Name):
+        return e.id, "truthy"
+    if isinstance(e, ast.NamedExpr) and isinstance(e.target, ast.Name):
+        return e.target.id, "truthy"
+    if isinstance(e, ast.Compare) and len(e.ops) == 1 and isinstance(e.left, ast.Name) and isinstance(e.comparators[0], ast.Constant) and e.comparators[0].value is None:
+        if isinstance(e.ops[0], ast.Is):
+            return e.left.id, "is_none"
+        if isinstance(e.ops[0], ast.IsNot):
+            return e.left.id, "is_not_none"
+    return None
+
+
+def _edge_env(kind: str, v: str | None, outcome: bool) -> tuple[bool, str | None]:
+    """(edge feasible, refined value) for a test of ``kind`` on a local whose abstract value is ``v``."""
+    if kind == "is_not_none":
+        kind, outcome = "is_none", not outcome
+    if kind == "is_none":
+        if outcome:
+            return (v in (None, _ABS_NONE)), _ABS_NONE
+        return (v != _ABS_NONE), (v if v not in (None, _ABS_NONE) else _ABS_NN)
+    # truthiness
+    if outcome:
+        return (v not in (_ABS_NONE, _ABS_F)), _ABS_T
+    return (v != _ABS_T), (_ABS_F if v == _ABS_NN else v)
+
+
+def reach_env(g: CFG, decide=None, blocked_edges: Iterable = (), limit: int = 100000) -> set[int]:
+    """Nodes reachable from the entry, path-sensitively in the None-ness / truthiness of flag-like locals (result slots of inlined helpers,
+    ``found = False ... found = True``, ``x = None ... if x is None``): a branch that contradicts what the path assigned is not taken.
+    ``decide`` fixes the outcome of chosen tests as in ``CFG.reach_assuming``.  Falls back to plain reachability beyond ``limit`` states."""
+    be = set(blocked_edges)
+    if decide is not None:
+        for n in g.nodes:
+            if n.kind == "test":
+                d = decide(n)
+                if d is not None:
+                    drop = "false" if d else "true"
+                    be |= {(n.id, m, l) for m, l in g.succ[n.id] if l == drop}
+    tracked = _tracked_names(g)
+    if not tracked:
+        return g.reachable([g.entry], blocked_edges=be)
+    defs = _def_nodes(g)
+    defs_at: dict[int, list[tuple[str, ast.expr | None]]] = {}
+    for name, sites in defs.items():
+        if name in tracked:
+            for nid, v in sites.items():
+                defs_at.setdefault(nid, []).append((name, v))
+    start = (g.entry, frozenset())
+    seen = {start}
+    stack = [start]
+    nodes_seen = {g.entry}
+    while stack:
+        nid, fenv = stack.pop()
+        if len(seen) > limit:
+            return g.reachable([g.entry], blocked_edges=be)
+        env_in = dict(fenv)
+        env = dict(env_in)
+        for name, v in defs_at.get(nid, ()):  # transfer
+            a = _absval(v, env_in) if v is not None else None
+            if a is None:
+                env.pop(name, None)
+            else:
+                env[name] = a
+        node = g.nodes[nid]
+        fact = _test_fact(node.ast) if node.kind == "test" and node.ast is not None else None
+        if fact is not None and fact[0] not in tracked:
+            fact = None
+        for m, lab in g.succ[nid]:
+            if (nid, m, lab) in be:
+                continue
+            out = env
+            if lab == "exc":
+                out = {k: v for k, v in env_in.items() if k not in {nm for nm, _ in defs_at.get(nid, ())}}
+            elif fact is not None and lab in ("true", "false"):
+                ok, refined = _edge_env(fact[1], env.get(fact[0]), lab == "true")
+                if not ok:
+                    continue
+                out = dict(env)
+                if refined is None:
+                    out.pop(fact[0], None)
+                else:
+                    out[fact[0]] = refined
+            st = (m, frozenset(out.items()))
+            if st not in seen:
+                seen.add(st)
+                nodes_seen.add(m)
+                stack.append(st)
+    return nodes_seen
+
+
+def cmp_atom(left: str, op: str, right: str) -> dict[str, bool]:
+    """Atom for ``reach_table``: every spelling of the comparison ``left op right`` and of its negation."""
+    flip = {"<": ">", ">": "<", "<=": ">=", ">=": "<=", "==": "==", "!=": "!=", "is": "is", "is not": "is not"}
+    neg = {"<": ">=", ">": "<=", "<=": ">", ">=": "<", "==": "!=", "!=": "==", "is": "is not", "is not": "is", "in": "not in", "not in": "in"}
+    out = {f"{left} {op} {right}": True, f"{left} {neg[op]} {right}": False}
+    if op in flip:
+        out[f"{right} {flip[op]} {left}"] = True
+        out[f"{right} {flip[neg[op]]} {left}"] = False
+    if op in ("==", "is") and right in ("None", "True", "False"):
+        pass
+    return out
+
+
+def call_param(ctx, fi: FuncInfo, call: ast.Call, param: str) -> ast.expr | None:
+    """The argument bound to parameter ``param`` at this call, given by keyword or positionally (the callee - function, method or
+    constructor - is resolved to find the position).  None: not passed, or the position cannot be determined."""
+    k = kwarg(call, param)
+    if k is not None:
+        return k
+    if any(isinstance(a, ast.Starred) for a in call.args):
+        return None
+    r = ctx.res.resolve_call(fi, call)
+    found: list[ast.expr | None] = []
+    for f in r.funcs:
+        found.append(bound_arg(call, f, param))
+    for ci in r.ctors:
+        init = ci.find_method("__init__")
+        if init is not None:
+            found.append(bound_arg(call, init, param))
+        else:
+            return None  # dataclass-style constructor: field order not modelled here
+    if found and all(x is found[0] for x in found):
+        return found[0]
+    return None
+
+
+def value_texts(fi: FuncInfo, where: ast.AST | Node, e: ast.expr | None) -> set[str]:
+    """Source texts a value may be written as at ``where``: itself, with temporaries expanded, and its flow leaves."""
+    if e is None:
+        return set()
+    return raw_forms(fi, where, e) | {ast.unparse(x) for x in leaves_at(fi, where, e)}
+
+
+def passes(ctx, fi: FuncInfo, call: ast.Call, param: str, *texts: str) -> bool:
+    """The call passes (one of) ``texts`` for parameter ``param`` - by keyword or position, directly or through temporaries."""
+    e = call_param(ctx, fi, call, param)
+    return e is not None and bool(value_texts(fi, call, e) & set(texts))
+
+
+def callable_body(repo, fi: FuncInfo, e: ast.expr | None) -> tuple[ast.expr, list[str]] | None:
+    """(returned expression, parameter names) of a callable given as a lambda, a module-level function name, or a method reference
+    (``cls.f`` / ``self.f`` / ``Class.f``) - for callables with a single returned expression; else None."""
+    if e is None:
+        return None
+    if isinstance(e, ast.Lambda):
+        return e.body, [a.arg for a in e.args.args]
+    h = None
+    if isinstance(e, ast.Name):
+        h = repo.functions.get(f"{fi.module.name}:{e.id}")
+        if h is None:
+            for v in [x for x in [single_defs(fi.node).get(e.id)] if x is not None]:
+                return callable_body(repo, fi, v)
+    elif isinstance(e, ast.Attribute) and isinstance(e.value, ast.Name):
+        if e.value.id in ("self", "cls") and fi.cls is not None:
+            h = fi.cls.find_method(e.attr)
+        else:
+            ci = repo.classes.get(repo.resolve_name(fi.module, e.value.id) or "")
+            h = ci.find_method(e.attr) if ci is not None else None
+    if h is None:
+        return None
+    rv = return_values(h.node)
+    if len(rv) != 1:
+        return None
+    params = [a.arg for a in h.pos_params]
+    if h.cls is not None and not h.is_staticmethod and params:
+        params = params[1:]
+    return rv[0], params
+
+
+def sort_calls(fn: ast.AST) -> list[tuple[ast.Call, ast.expr | None, ast.expr | None]]:
+    """(call, key, reverse) for every ``sorted(xs, key=..)`` and ``xs.sort(key=..)`` of the function."""
+    out = []
+    for c in calls_in(fn):
+        if (isinstance(c.func, ast.Name) and c.func.id == "sorted") or (isinstance(c.func, ast.Attribute) and c.func.attr == "sort"):
+            out.append((c, kwarg(c, "key"), kwarg(c, "reverse")))
+    return out
+
+
+def callable_info(repo, fi: FuncInfo, e: ast.expr | None) -> tuple[FuncInfo, list[str]] | None:
+    """A callable given as a lambda, the name of a nested / module-level function, or a method reference, as a (pseudo) FuncInfo that the
+    flow primitives accept, plus its parameter names (receiver dropped)."""
+    if e is None:
+        return None
+    if isinstance(e, ast.Lambda):
+        if not hasattr(e, "_xsa_fn"):
+            fn = ast.FunctionDef(name="<lambda>", args=e.args, body=[ast.copy_location(ast.Return(value=e.body), e.body)], decorator_list=[], returns=None, type_comment=None, type_params=[])
+            ast.copy_location(fn, e)
+            e._xsa_fn = fn  # type: ignore[attr-defined]
+        return FuncInfo(qual=f"{fi.qual}.<lambda>", module=fi.module, cls=None, node=e._xsa_fn, name="<lambda>"), [a.arg for a in e.args.args]
+    h = None
+    drop_recv = False
+    if isinstance(e, ast.Name):
+        nested = [n for n in ast.walk(fi.node) if isinstance(n, ast.FunctionDef) and n.name == e.id and n is not fi.node]
+        if nested:
+            return FuncInfo(qual=f"{fi.qual}.{e.id}", module=fi.module, cls=None, node=nested[0], name=e.id), [a.arg for a in nested[0].args.args]
+        h = repo.functions.get(f"{fi.module.name}:{e.id}")
+        if h is None:
+            v = single_defs(fi.node).get(e.id)
+            return callable_info(repo, fi, v) if v is not None else None
+    elif isinstance(e, ast.Attribute) and isinstance(e.value, ast.Name):
+        if e.value.id in ("self", "cls") and fi.cls is not None:
+            h = fi.cls.find_method(e.attr)
+        else:
+            ci = repo.classes.get(repo.resolve_name(fi.module, e.value.id) or "")
+            h = ci.find_method(e.attr) if ci is not None else None
+        drop_recv = h is not None and not h.is_staticmethod
+    if h is None:
+        return None
+    params = [a.arg for a in h.pos_params]
+    return h, (params[1:] if drop_recv and params else params)
+
+
+def callable_leaves(repo, fi: FuncInfo, e: ast.expr | None) -> list[tuple[str, set[tuple[str, bool]]]] | None:
+    """(anonymised leaf text, conditions) for every value the callable can return - through temporaries, ``a or b``, conditional
+    expressions and if/else returns alike.  None: the callable cannot be found."""
+    ci = callable_info(repo, fi, e)
+    if ci is None:
+        return None
+    h, _ = ci
+    g = build_cfg(h.node)
+    out = []
+    for r in g.returns():
+        if r.ast.value is None:
+            out.append(("None", set()))
+            continue
+        for leaf, chain in flows(h, r, r.ast.value):
+            out.append((anon_text(leaf, h.node), leaf_conditions(h, r, leaf, chain)))
+    return out
+
+
+def sort_key_attr(repo, fi: FuncInfo, key: ast.expr | None) -> str | None:
+    """The attribute a sort key reads: ``lambda x: x.name`` / a function returning ``x.name`` / ``operator.attrgetter("name")`` -> "name"."""
+    if isinstance(key, ast.Name):
+        v = single_defs(fi.node).get(key.id)
+        if isinstance(v, ast.Call) and call_name_of(v) == "attrgetter":
+            key = v
+    if isinstance(key, ast.Call) and call_name_of(key) == "attrgetter" and len(key.args) == 1 and isinstance(key.args[0], ast.Constant) and isinstance(key.args[0].value, str):
+        return key.args[0].value
+    kl = callable_leaves(repo, fi, key)
+    if kl and len({t for t, _ in kl}) == 1 and kl[0][0].startswith("_.") and kl[0][0][2:].isidentifier():
+        return kl[0][0][2:]
+    return None
+
+
+def returned_sort_keys(fi: FuncInfo) -> list[ast.expr | None] | None:
+    """For a function that returns a sorted sequence: the key expression of the sort that produced each returned value -
+    ``return sorted(xs, key=K)``, or ``ys = list(xs); ys.sort(key=K); return ys`` (the sort lies on every path to the return).
+    None when some returned value is not the result of a sort."""
+    g = build_cfg(fi.node)
+    keys: list[ast.expr | None] = []
+    for r in g.returns():
+        if r.ast.value is None:
+            return None
+        for leaf, chain in flows(fi, r, r.ast.value):
+            if isinstance(leaf, ast.Call) and isinstance(leaf.func, ast.Name) and leaf.func.id == "sorted":
+                keys.append(kwarg(leaf, "key"))
+                continue
+            # in-place sort of the returned local
+            name = r.ast.value.id if isinstance(r.ast.value, ast.Name) else None
+            sorts = [(n, c) for n in g.stmts() for c in node_calls(n) if isinstance(c.func, ast.Attribute) and c.func.attr == "sort" and isinstance(c.func.value, ast.Name) and c.func.value.id == name]
+            if name is None or not sorts or not g.must_pass(g.entry, r.id, [n.id for n, _ in sorts]):
+                return None
+            keys += [kwarg(c, "key") for _, c in sorts]
+    return keys
+
+
+def loop_carried_defs(g: CFG, use: int, name: str) -> set[int]:
+    """Definitions of ``name`` inside a ``for`` loop whose value can still be alive at node ``use`` in a LATER iteration: a path from the
+    definition around the loop's back edge to the use on which the name is not assigned again (per-item state that is not re-initialised
+    per item)."""
+    back = set()
+    inside: set[int] = set()
+    for f in g.nodes:
+        if f.kind != "for":
+            continue
+        body = g.reachable([m for m, lab in g.succ[f.id] if lab == "iter"], blocked=[f.id])
+        if use not in body:
+            continue
+        inside |= body
+        back |= {(a, f.id, lab) for a, lab in g.pred[f.id] if a in body}
+    if not back:
+        return set()
+    sites = set(_def_nodes(g).get(name, {}))
+    out = set()
+    for d in sites & inside:
+        seen = set()
+        stack = [(m, (d, m, lab) in back) for m, lab in g.succ[d] if lab != "exc"]
+        while stack:
+            n, crossed = stack.pop()
+            if (n, crossed) in seen:
+                continue
+            seen.add((n, crossed))
+            if n == use and crossed:
+                out.add(d)
+                break
+            if n in sites:
+                continue  # assigned again: the earlier value is dead from here on
+            for m, lab in g.succ[n]:
+                stack.append((m, crossed or (n, m, lab) in back))
+    return out
+
+
+def predicate_table(fi: FuncInfo, atoms: list[dict[str, bool]], raw: bool = True) -> dict[tuple[bool, ...], bool] | None:
+    """Truth table of "the function can return a truthy value" over named atomic facts (see ``reach_table``): every ``return E`` is read as
+    ``if E: return True / else: return False``, so that a boolean expression returned directly and the same decision written as branches
+    are one and the same.  Facts not listed stay open (the entry is True when SOME outcome of the open tests returns truthy)."""
+    import copy
+
+    fn = copy.deepcopy(fi.node)
+    for attr in ("_xsa_cfg", "_xsa_asrc", "_xsa_single_defs"):
+        if hasattr(fn, attr):
+            delattr(fn, attr)
+    trues: list[ast.Return] = []
+
+    class T(ast.NodeTransformer):
+        def visit_FunctionDef(self, n):
+            if n is fn:
+                self.generic_visit(n)
+            return n
+
+        visit_AsyncFunctionDef = visit_FunctionDef
+
+        def visit_Lambda(self, n):
+            return n
+
+        def visit_Return(self, r: ast.Return):
+            v = r.value
+            if v is None or (isinstance(v, ast.Constant) and not v.value):
+                return r
+            t = ast.copy_location(ast.Return(value=ast.copy_location(ast.Constant(value=True), r)), r)
+            trues.append(t)
+            if isinstance(v, ast.Constant):
+                return t
+            f = ast.copy_location(ast.Return(value=ast.copy_location(ast.Constant(value=False), r)), r)
+            return ast.copy_location(ast.If(test=v, body=[t], orelse=[f]), r)
+
+    T().visit(fn)
+    ast.fix_missing_locations(fn)
+    pfi = FuncInfo(qual=fi.qual, module=fi.module, cls=fi.cls, node=fn, name=fi.name)
+    out: dict[tuple[bool, ...], bool] | None = None
+    for t in trues:
+        tab = reach_table(pfi, t, atoms, raw=raw)
+        if tab is None:
+            return None
+        out = tab if out is None else {k: out[k] or tab[k] for k in tab}
+    if out is None:
+        import itertools
+
+        out = {k: False for k in itertools.product((True, False), repeat=len(atoms))}
+    return out
